@@ -28,6 +28,7 @@ import (
 	"context"
 	"encoding/hex"
 	"fmt"
+	"io"
 	"math/rand"
 	"os"
 	"path/filepath"
@@ -107,13 +108,31 @@ type c17Sess struct {
 	done     chan struct{}
 	panicked atomic.Bool
 	stuck    bool
+	muted    bool
 	nosync   int
 }
 
-const c17Timeout = 3 * time.Second
+const c17Timeout = 10 * time.Second
+
+// sessions in which the dispatcher blocked or died; after c17GiveUp of them no further sessions are generated
+var c17Bad int
+
+const c17GiveUp = 2
 
 func c17Start(w *bufio.Writer, cid string, caps map[uint16]int) *c17Sess {
 	s := &c17Sess{w: w, cid: cid}
+	if c17Bad >= c17GiveUp { // enough evidence: a muted session (nothing is started, nothing is written)
+		s.muted = true
+		s.w = bufio.NewWriter(io.Discard)
+		s.stuck = true
+		s.done = make(chan struct{})
+		close(s.done)
+		s.cancel = func() {}
+		s.clk = &c17Clock{Mock: clock.NewMock(), tickC: make(chan time.Time)}
+		s.chans = map[vaa.ChainID]chan *gossipv1.ObservationRequest{}
+		s.logC = make(chan string, 1)
+		return s
+	}
 	s.clk = &c17Clock{Mock: clock.NewMock(), tickC: make(chan time.Time)}
 	s.reqC = make(chan *gossipv1.ObservationRequest)
 	s.chans = map[vaa.ChainID]chan *gossipv1.ObservationRequest{}
@@ -294,6 +313,9 @@ func (s *c17Sess) delchan(chain uint16) {
 }
 
 func (s *c17Sess) end() {
+	if s.stuck && !s.muted {
+		c17Bad++
+	}
 	s.cancel()
 	res := "ok"
 	t := time.NewTimer(c17Timeout)
